@@ -190,16 +190,25 @@ def any_arms_rule(run, ctx):
         for p in fam_vm.fpaths(a[0]["body"]):
             n += 1
             adv = [ev for ev in p.events if ev.kind == "assign" and ev.a == "ix"]
-            inb = [ev for ev in p.events if ev.kind == "cond" and ev.a == "(ix < len(s))"]
-            nl = [ev for ev in p.events if ev.kind == "cond" and ev.a in ("(b'\\x0a' != s[ix])", "(s[ix] != b'\\x0a')")]
+            first_adv = next((i for i, ev in enumerate(p.events) if ev.kind == "assign" and ev.a == "ix"), None)
+            pf = S.PathFacts(p.events, first_adv)
+            inside = pf.proves("Lt", "ix", ({"len(s)": 1}, 0))
+            outside = pf.proves("Ge", "ix", ({"len(s)": 1}, 0))
+            # newline test, any spelling of  s.as_bytes()[ix] ==/!= b'\n'
+            isnl = None
+            for ev in p.events:
+                if ev.kind == "cond":
+                    m_ = re.match(r"^\((.*) (==|!=) (.*)\)$", ev.a or "")
+                    if m_ and {m_.group(1), m_.group(3)} == {"b'\\x0a'", "s[ix]"}:
+                        isnl = ev.b if m_.group(2) == "==" else (not ev.b)
             failed = p.exit == "break"
-            if not inb:
+            if not inside and not outside:
                 run.violation(fam, label, var + "/no-bound", H.where(a[0]), "Insn::%s must test ix < s.len()" % var)
                 continue
-            should_match = inb[0].b and (var == "Any" or (nl and nl[0].b))
-            if var == "AnyNoNL" and inb[0].b and not nl:
+            if var == "AnyNoNL" and inside and isnl is None:
                 run.violation(fam, label, var + "/no-newline-test", H.where(a[0]), "Insn::AnyNoNL must reject a newline byte")
                 continue
+            should_match = inside and (var == "Any" or isnl is False)
             if should_match:
                 if failed or len(adv) != 1 or adv[0].b != "+=" or adv[0].c not in ("codepoint_len_at(s,ix)", "codepoint_len(s[ix])"):
                     run.violation(fam, label, var + "/step", H.where(a[0]), "Insn::%s must advance ix by the code point length at ix (found %s)" % (var, [(e.b, e.c) for e in adv]))
@@ -295,8 +304,26 @@ def any_arms_rule(run, ctx):
     if a:
         c = H.canon(a[0]["body"])
         n += 1
-        if c not in ("if ((%s < ix) || ((OPTION_SKIPPED_EMPTY_MATCH & option_flags) != 0)) {break 'fail}" % POS,
-                     "if ((%s < ix) || (0 != (OPTION_SKIPPED_EMPTY_MATCH & option_flags))) {break 'fail}" % POS):
+        good = True
+        kinds_ = set()
+        for p in S.paths_of(a[0]["body"]):
+            pf = S.PathFacts(p.events)
+            after = pf.proves("Gt", "ix", POS)
+            notafter = pf.proves("Le", "ix", POS)
+            flag = None
+            for ev in p.events:
+                if ev.kind == "cond" and "OPTION_SKIPPED_EMPTY_MATCH" in (ev.a or "") and "option_flags" in ev.a:
+                    m_ = re.match(r"^\((.*) (==|!=) (.*)\)$", ev.a)
+                    if m_ and "0" in (m_.group(1), m_.group(3)):
+                        flag = ev.b if m_.group(2) == "!=" else (not ev.b)
+            failing = p.exit == "break" and p.label == "'fail"
+            if failing:
+                good = good and (after or flag is True)
+            else:
+                good = good and p.exit == "fall" and notafter and flag is False
+            kinds_.add(failing)
+            good = good and not any(ev.kind == "assign" for ev in p.events)
+        if not good or kinds_ != {True, False}:
             run.violation(fam, label, "ContinueFromPreviousMatchEnd", H.where(a[0]), "\\G must hold exactly at the search start position and never after a skipped empty match, found %s" % c)
     else:
         run.violation(fam, label, "anchor-missing/ContinueFromPreviousMatchEnd", H.where(fn), "anchor-missing: \\G arm")
@@ -354,18 +381,30 @@ def byte_class_tables(run, ctx):
             return eval_body(e, env)
         if k == "Match":
             sv = eval_int(e["scrut"], env)
+            def pm(p, env2):
+                if p["k"] == "Binding":
+                    env2[p["name"]] = sv
+                    return True
+                if p["k"] == "Wild":
+                    return True
+                if p["k"] == "ExprPat" and "lit" in p:
+                    return p["lit"]["v"] == sv
+                if p["k"] == "RangePat":
+                    lo = p["lo"]["lit"]["v"] if p.get("lo") else None
+                    hi = p["hi"]["lit"]["v"] if p.get("hi") else None
+                    if lo is not None and p["lo"].get("neg"):
+                        lo = -lo
+                    if hi is not None and p["hi"].get("neg"):
+                        hi = -hi
+                    return (lo is None or lo <= sv) and (hi is None or (sv <= hi if p.get("inclusive") else sv < hi))
+                if p["k"] == "OrPat":
+                    return any(pm(q, env2) for q in p["pats"])
+                raise ValueError("pattern " + p["k"])
             for arm in e["arms"]:
                 p = arm["pat"]
                 env2 = dict(env)
-                if p["k"] == "Binding":
-                    env2[p["name"]] = sv
-                elif p["k"] == "Wild":
-                    pass
-                elif p["k"] == "ExprPat" and "lit" in p:
-                    if p["lit"]["v"] != sv:
-                        continue
-                else:
-                    raise ValueError("pattern " + p["k"])
+                if not pm(p, env2):
+                    continue
                 if arm.get("guard") is not None and not eval_int(arm["guard"], env2):
                     continue
                 return eval_int(arm["body"], env2)
@@ -402,7 +441,7 @@ def byte_class_tables(run, ctx):
     # prev_codepoint_ix: the stop test must accept exactly non-continuation bytes
     fn = S.get_fn(run, ctx, "prev_codepoint_ix", fam, label)
     if fn is not None:
-        ifs = [nd for nd in H.walk(fn["body"]) if nd.get("k") == "If" and "break" in H.canon(nd["then"])]
+        ifs = [nd for nd in H.walk(fn["body"]) if nd.get("k") == "If" and ("break" in H.canon(nd["then"]) or "return" in H.canon(nd["then"]))]
         c = H.canon(fn["body"])
         if len(ifs) != 1 or "ix -= 1" not in c:
             run.violation(fam, label, "prev_codepoint_ix/shape", H.where(fn), "anchor-missing: prev_codepoint_ix should decrement ix and stop at a non-continuation byte")
@@ -546,8 +585,22 @@ def printable_rule(run, ctx):
         c = H.canon(fn["body"])
         X = fn["params"][1].get("name")
         Sb = fn["params"][0].get("name")
-        want = "if (10 <= %s) {push_usize(%s,(%s / 10)); %s.push(((b'0' + ((%s %% 10) as u8)) as char))} else {%s.push(((b'0' + (%s as u8)) as char))}" % (X, Sb, X, Sb, X, Sb, X)
-        if c != want:
+        # path-based: x < 10 -> push the digit; otherwise print x / 10 first, then the last digit
+        good = True
+        kinds_ = set()
+        for p in S.paths_of(fn["body"]):
+            pf = S.PathFacts(p.events)
+            small = pf.proves("Lt", X, 10)
+            big = pf.proves("Ge", X, 10)
+            calls = [ev.a for ev in p.events if ev.kind == "call" and (ev.a.startswith("push_usize(") or ev.a.startswith("%s.push(" % Sb))]
+            if small:
+                good = good and calls == ["%s.push(((b'0' + (%s as u8)) as char))" % (Sb, X)]
+            elif big:
+                good = good and calls == ["push_usize(%s,(%s / 10))" % (Sb, X), "%s.push(((b'0' + ((%s %% 10) as u8)) as char))" % (Sb, X)]
+            else:
+                good = False
+            kinds_.add(bool(small))
+        if not good or kinds_ != {True, False}:
             run.violation(fam, "push_usize", "shape", H.where(fn), "push_usize must print the decimal digits of x most-significant first, found %s" % c)
         else:
             run.ok(fam, "push_usize", H.where(fn), 1, "decimal digits, most significant first")
@@ -820,7 +873,36 @@ def slot_rule(run, ctx):
             run.violation(fam, label, "n_groups", H.where(no), "n_groups must be the analysed tree's end_group (number of groups incl. group 0)")
         if "let inner_info = info.children[1].children[0]; if !inner_info.hard" not in c:
             run.violation(fam, label, "handoff-test", H.where(no), "the whole-pattern hand-off must be decided by the hardness of the user's expression inside wrap_tree's group (info.children[1].children[0])")
-        if not re.search(r"let raw_e = match tree\.expr \{Expr::Concat\(v\) => match v\[1\] \{Expr::Group\(child\) => child; _ => .*?\}; _ => .*?\}; raw_e\.to_str\(re_cooked,0\)", c):
+        # path-based: what is printed for the inner engine was destructured as Group(..) out of element 1 of the
+        # Concat that wrap_tree built around the user's expression (match, if let or let-else alike)
+        handoff_ok = False
+        for p in S.paths_of(no["body"], max_paths=200000):
+            calls = [ev.a for ev in p.events if ev.kind == "call" and H.pat_match("{x}.to_str(re_cooked,0)", ev.a or "")]
+            if not calls:
+                continue
+            env = {}
+            for ev in p.events:
+                pat_, scr = None, None
+                if ev.kind == "arm":
+                    pat_, scr = ev.b, ev.a
+                elif ev.kind in ("let", "letcond") and (ev.kind == "let" or ev.c):
+                    pat_, scr = ev.a, ev.b
+                if pat_ is None or scr is None:
+                    continue
+                scr = H.subst_lets(scr, env)
+                m1 = re.match(r"^Expr::Concat\((\w+)\)$", pat_)
+                m2 = re.match(r"^Expr::Group\((\w+)\)$", pat_)
+                if m1:
+                    env[m1.group(1)] = "Concat<%s>" % scr
+                elif m2:
+                    env[m2.group(1)] = "Group<%s>" % scr
+                elif re.match(r"^\w+$", pat_) and ev.kind == "let" and ("Group<" in scr or "Concat<" in scr):
+                    env[pat_] = scr
+            x = H.pat_match("{x}.to_str(re_cooked,0)", calls[-1]).group("x")
+            handoff_ok = H.subst_lets(x, env) == "Group<Concat<tree.expr>[1]>"
+            if not handoff_ok:
+                break
+        if not handoff_ok:
             run.violation(fam, label, "handoff-expr", H.where(no), "the expression handed to the automata engine must be the user's expression (child of wrap_tree's group) printed at precedence 0")
     cl = S.get_fn(run, ctx, "Regex::captures_len", fam, label)
     if cl is not None:
@@ -834,7 +916,9 @@ def slot_rule(run, ctx):
         c = H.canon(pu["body"])
         INFO = pu["params"][1].get("name")
         n += 2
-        if "if self.start_group.is_none() {self.start_group = Some(%s.start_group)}" % INFO not in c:
+        if not any(f % INFO in c for f in ("if self.start_group.is_none() {self.start_group = Some(%s.start_group)}",
+                                           "self.start_group.get_or_insert(%s.start_group)",
+                                           "self.start_group.get_or_insert_with(|| %s.start_group)")):
             run.violation(fam, label, "delegate-start", H.where(pu), "DelegateBuilder must take start_group from the first pushed Info")
         if "self.end_group = %s.end_group" % INFO not in c:
             run.violation(fam, label, "delegate-end", H.where(pu), "DelegateBuilder must take end_group from the last pushed Info")
